@@ -55,7 +55,13 @@ bool RSNHandshakeCapturer::process_packet(const PDU& pdu) {
         
     // 1st packet
     if (eapol->key_t() && eapol->key_ack() && !eapol->key_mic() && !eapol->install()) {
-        handshakes_[addresses].assign(eapol, eapol + 1);
+        // A retransmitted message 1 (same ANonce) must not restart a capture that 
+        // is already in progress
+        handshake_map::iterator iter = handshakes_.find(addresses);
+        if (iter == handshakes_.end() || iter->second.empty() ||
+            !std::equal(eapol->nonce(), eapol->nonce() + RSNEAPOL::nonce_size, iter->second[0].nonce())) {
+            handshakes_[addresses].assign(eapol, eapol + 1);
+        }
     }
     // 2nd and 4th packets
     else if (eapol->key_t() && !eapol->key_ack() && eapol->key_mic() && !eapol->install()) {
@@ -88,16 +94,17 @@ bool RSNHandshakeCapturer::do_insert(const handshake_map::key_type& key,
                                      size_t expected) {
     handshake_map::iterator iter = handshakes_.find(key);
     if (iter != handshakes_.end()) {
-        if (iter->second.size() != expected) {
-            // skip repeated
-            if (iter->second.size() != expected + 1) {
-                iter->second.clear();
-            }
-        }
-        else {
+        if (iter->second.size() == expected) {
             iter->second.push_back(*eapol);
             return true;
         }
+        // A repeated message 2 answers a repeated message 1 and may carry a new 
+        // SNonce: the authenticator goes on with the latest one
+        if (expected == 1 && iter->second.size() == 2) {
+            iter->second[1] = *eapol;
+        }
+        // Anything else that is out of step (retransmissions that cross other 
+        // messages) is ignored: it must not discard what has been captured
     }
     return false;
 }
